@@ -174,6 +174,7 @@ def report_property(prop, a, reg, results, extra, seed, t0):
     base = load_baseline()
     findings = [f for f in load_findings() if f.get('property') == prop]
     violations, undecided, known = [], [], []
+    bounded_rows = []
     obligations, discharged = [], []
     fn_rows, trusted, rewrites, samples = [], [], [], []
     vac_total, vac_ok = 0, 0
@@ -208,10 +209,26 @@ def report_property(prop, a, reg, results, extra, seed, t0):
             if unit_broken:
                 continue
             if o['item'] in isolated:
+                bd = (res.get('bounded') or {}).get(o['item'])
+                lbl = o['id'].split('/', 2)[2] if o['id'].count('/') >= 2 else ''
+                if bd and bd['status'] == 'witness' and lbl in bd['witnesses']:
+                    # the bounded stand-in ran the REAL function text and found an input that breaks this clause
+                    bounded_rows.append(dict(bd, unit=u))
+                    violations.append((u, o, 'bounded stand-in counterexample', dict(bd, witness=bd['witnesses'][lbl])))
+                    continue
                 if o['item'] not in iso_reported:
                     iso_reported.add(o['item'])
-                    undecided.append('unit %s: function %s can no longer be brought into the verifier, its obligations are NOT decided (%s)'
-                                     % (u, o['item'], isolated[o['item']][:400]))
+                    extra_note = ''
+                    if bd:
+                        bounded_rows.append(dict(bd, unit=u))
+                        if bd['status'] == 'clean':
+                            extra_note = '; bounded stand-in (NOT a proof): no counterexample in %d cases, %s' % (bd['checked'], bd['bound'])
+                        elif bd['status'] == 'error':
+                            extra_note = '; bounded stand-in unavailable: %s' % bd['detail'][:200]
+                        elif bd['status'] == 'witness':
+                            extra_note = '; bounded stand-in found counterexamples for %s' % sorted(bd['witnesses'])
+                    undecided.append('unit %s: function %s can no longer be brought into the verifier, its obligations are NOT decided (%s)%s'
+                                     % (u, o['item'], isolated[o['item']][:400], extra_note))
                 continue
             if o['id'] in m.fail:
                 msg = m.fail[o['id']]
@@ -219,7 +236,7 @@ def report_property(prop, a, reg, results, extra, seed, t0):
                 if kf is not None:
                     known.append((o, kf))
                 elif o['id'] in base.get(u, []):
-                    violations.append((u, o, msg))
+                    violations.append((u, o, msg, None))
                 else:
                     undecided.append('obligation %s fails but is not in the committed baseline (never proved on the pinned tree)' % o['id'])
             else:
@@ -234,8 +251,27 @@ def report_property(prop, a, reg, results, extra, seed, t0):
             props_of = set(meta[0].get('props', [])) if meta else set()
             if (prop in props_of or not props_of) and it_id not in iso_reported:
                 iso_reported.add(it_id)
-                undecided.append('unit %s: function %s can no longer be brought into the verifier, its obligations are NOT decided (%s)'
-                                 % (u, it_id, why[:400]))
+                bd = (res.get('bounded') or {}).get(it_id)
+                extra_note = ''
+                if bd:
+                    bounded_rows.append(dict(bd, unit=u))
+                    if bd['status'] == 'clean':
+                        extra_note = '; bounded stand-in (NOT a proof): no counterexample in %d cases, %s' % (bd['checked'], bd['bound'])
+                    elif bd['status'] == 'error':
+                        extra_note = '; bounded stand-in unavailable: %s' % bd['detail'][:200]
+                    elif bd['status'] == 'witness':
+                        # the stand-in ran the REAL function text and found inputs that break clauses of its contract:
+                        # those clauses (proved on the pinned tree) are violated, with a failing input
+                        for lbl, wit in sorted(bd['witnesses'].items()):
+                            oid = '%s/%s/%s' % (u, it_id, lbl)
+                            if oid in base.get(u, []):
+                                po = dict(id=oid, item=it_id, kind='ensures (decided by the bounded stand-in)', props=sorted(props_of),
+                                          text='clause %s of the contract of %s (contracts/%s.py)' % (lbl, it_id, u))
+                                obligations.append(po)
+                                violations.append((u, po, 'bounded stand-in counterexample', dict(bd, witness=wit)))
+                        extra_note = '; bounded stand-in found failing inputs for %s' % sorted(bd['witnesses'])
+                undecided.append('unit %s: function %s can no longer be brought into the verifier, its obligations are NOT decided deductively (%s)%s'
+                                 % (u, it_id, why[:400], extra_note))
         for it in g.items:
             if prop in it.get('props', []) or any(prop in o['props'] and o['item'] == it['id'] for o in res['obligations']):
                 st = None
@@ -278,16 +314,24 @@ def report_property(prop, a, reg, results, extra, seed, t0):
         seen_kf.add(kf['line'])
         print('KNOWN-FINDING: %s' % kf['line'][len('finding:'):].strip())
     nviol = 0
-    for (u, o, msg) in violations:
+    for (u, o, msg, bd) in violations:
         nviol += 1
         path = os.path.join(VERIF, 'replay', '%s-%s-%d.txt' % (prop, u, nviol))
-        write_replay(path, prop, u, o, msg, results[u], a)
-        print('VIOLATION property=%s replay=%s obligation=%s no-failing-input-found' % (prop, path, o['id']))
+        if bd is not None:
+            write_bounded_replay(path, prop, u, o, bd)
+            print('VIOLATION property=%s replay=%s obligation=%s failing-input=%s (bounded stand-in on the real function text)'
+                  % (prop, path, o['id'], bd['witness'][:200]))
+        else:
+            write_replay(path, prop, u, o, msg, results[u], a)
+            print('VIOLATION property=%s replay=%s obligation=%s no-failing-input-found' % (prop, path, o['id']))
         rc = 1
     if rc == 0 and undecided:
         rc = 2
     for x in undecided:
         print('UNDECIDED property=%s %s' % (prop, x))
+    extra = dict(extra, bounded_rows=[dict(function=b['item'], unit=b['unit'], harness=b['harness'], status=b['status'], cases=b['checked'],
+                                           bound=b['bound'], witnesses=b['witnesses'], note='bounded stand-in for a function the verifier '
+                                           'could not take; never counted as discharged') for b in bounded_rows])
     write_evidence(prop, a.tier, seed, obligations, discharged, violations, known, undecided, fn_rows, trusted,
                    rewrites, samples, vac_total, vac_ok, cmds, solver_ms, time.time() - t0, reg, extra)
     print('%s: %d/%d obligations discharged, %d violation(s), %d known finding(s), %d undecided note(s); exit %d'
@@ -300,6 +344,23 @@ def match_finding(findings, oid):
         if f.get('obligation') == oid:
             return f
     return None
+
+
+def write_bounded_replay(path, prop, unit, o, bd):
+    src_copy = path[:-4] + '.rs'
+    try:
+        import shutil
+        shutil.copy(bd['source'], src_copy)
+    except (OSError, KeyError):
+        src_copy = bd.get('source', '?')
+    with open(path, 'w') as f:
+        f.write('property: %s\nobligation: %s\nkind: %s\n' % (prop, o['id'], o['kind']))
+        f.write('contract clause:\n    %s\n' % o['text'].replace('\n', '\n    '))
+        f.write('status: the function can no longer be brought into the verifier (its new text uses a construct Verus rejects or a\n'
+                '        rewrite / proof anchor is lost), so the clause was checked by the bounded stand-in instead of deductively\n')
+        f.write('bounded stand-in: %s; %d cases; bound: %s\n' % (bd['harness'], bd['checked'], bd['bound']))
+        f.write('witness (an input of the REAL function text, extracted from the tree under check, that breaks the clause):\n    %s\n' % bd['witness'])
+        f.write('replay: %s  (the harness with the real function text pasted in; %s)\n' % (src_copy, bd.get('cmd', '')))
 
 
 def write_replay(path, prop, unit, o, msgs, res, a):
@@ -332,7 +393,7 @@ def write_evidence(prop, tier, seed, obligations, discharged, violations, known,
             backend='verus 0.2026.09.13 / z3 (bundled)',
             functions_under_contract=fn_rows,
             solver_time_ms=solver_ms,
-            bounded_obligations=[],
+            bounded_obligations=extra.get('bounded_rows', []),
             clauses_not_covered=pmeta.get('not_covered', []),
             clauses_covered=pmeta.get('covered', []),
             extraction=dict(method='function and type texts lifted from the working tree by vc/weave.py on this run; '
